@@ -64,3 +64,38 @@ Print Assumptions C17_set_text_roundtrip.
 (* faithful negative results kept by name *)
 Check set_text_refuted_v0 : exists keys, keys_ok keys /\ set_de_text false (print (set_ser keys)) = Err.
 Check some_null_is_lost.
+
+(* text front end at the level of the structs: serde_json::from_slice(&serde_json::to_vec(&x)) == x for every
+   representable Request / Reply / ServiceInfo (same exclusions as the value front end: parameters = Some(null);
+   the JSON side conditions - UTF-8 strings, canonical numbers, nesting within serde_json's recursion limit - on
+   each field) *)
+From VL Require Import WireTextProofs.
+Theorem C17_struct_text_roundtrip : forall sch, names_distinct sch = true ->
+  forall r, record_ok sch r = true -> Forall fval_rt_ok r ->
+    wf (ser sch r) -> (height (ser sch r) <= 127)%nat ->
+    de_text sch (print (ser sch r)) = Ok r.
+Proof. exact de_text_ser. Qed.
+Print Assumptions C17_struct_text_roundtrip.
+
+Theorem C17_request_text_roundtrip : forall r, record_ok schema_Request r = true -> Forall fval_rt_ok r ->
+  Forall fval_wf r -> Forall fval_shallow r -> de_text schema_Request (print (ser schema_Request r)) = Ok r.
+Proof. exact request_text_roundtrip. Qed.
+Print Assumptions C17_request_text_roundtrip.
+
+Theorem C17_reply_text_roundtrip : forall r, record_ok schema_Reply r = true -> Forall fval_rt_ok r ->
+  Forall fval_wf r -> Forall fval_shallow r -> de_text schema_Reply (print (ser schema_Reply r)) = Ok r.
+Proof. exact reply_text_roundtrip. Qed.
+Print Assumptions C17_reply_text_roundtrip.
+
+Theorem C17_info_text_roundtrip : forall r, record_ok schema_ServiceInfo r = true -> Forall fval_rt_ok r ->
+  Forall fval_wf r -> Forall fval_shallow r -> de_text schema_ServiceInfo (print (ser schema_ServiceInfo r)) = Ok r.
+Proof. exact info_text_roundtrip. Qed.
+Print Assumptions C17_info_text_roundtrip.
+
+(* the message codec used by the service and client models *)
+Theorem C17_request_codec_roundtrip : forall q, request_ok q -> decode_request (encode_request q) = Ok q.
+Proof. exact request_roundtrip. Qed.
+Print Assumptions C17_request_codec_roundtrip.
+
+(* sharpness: the hypotheses exclude only what really fails *)
+Check some_null_is_lost_text. Check depth_limit_is_sharp. Check wf_exclusions_are_needed.
